@@ -92,6 +92,11 @@ def gen_probe(src, info):
     if m == 9:
         return {"t": "call", "m": "reset", "a": [], "k": k, "form": "reset"}
     chosen = []
+    pairs = [(i, d) for d, a in attrs.items() for i in (a.get("invalidated_by") or ()) if i in attrs and i != d]
+    if pairs and src.chance(1, 3):
+        # an invalidating attribute followed by one of its dependants: keywords are applied in order, so the dependant's
+        # transform / new value starts from the default that the first keyword has just restored
+        chosen = list(src.pick(pairs))
     for _ in range(1 + src.choice(3)):
         a = src.pick(names)
         if a not in chosen:
